@@ -20,7 +20,9 @@ RULE = ('Schematic(obj, placeAndRoute=True) built in a child process (20 s alarm
         'PORTS of the drawn block) created first / in the middle / last, (d) size class: chains of '
         '400/800 (thorough up to 900) instances created output-first, input-first or in random order, drawn under the interpreter '
         'default recursion limit; (e) fan-in class: every n-input library block (And, Or, Nor, Xor, Concatenate*, Scope, Waveform) at fan-ins '
-        '2,3,4,8,13,16,17,32,64,(128,256,)300 (thorough also 24..400); (f) history class: several Schematic objects in ONE process over '
+        '2,3,4,8,13,16,17,32,64,(128,256,)300 (thorough also 24..400); (e2) subclass class: a child whose class is a user subclass of a '
+        'library block with a symbol of its own (Not, Buf, And2, Or2, Nor2, Xor2, Add, Sub, Mul, Mux2, Reg, Bit, Range, And, Or) '
+        'declaring 1-3 more input and/or 1-2 more output ports after super().__init__, next to a plain instance of the base; (f) history class: several Schematic objects in ONE process over '
         'blocks of one hierarchy that share Wire objects (enclosing system, block, structural children, a grandchild; parent-first, '
         'child-first, the same block twice, sibling after sibling, interleaved), every drawing judged by the full oracle plus '
         '"every net endpoint is a symbol object of this drawing"; the object graph '
@@ -128,6 +130,12 @@ def workload(tier, seed, shard):
             if tier == 'quick' and n in QUICK_BIG_ONLY_FOR_SYMBOLS and cls not in ('And', 'Or'):
                 continue    # quick: the classes drawn with the generic instance symbol go 2..64 and the maximum; And/Or (own symbols) all
             cases.append(dict(type='gate', cls=cls, n=n, w=1 if (k + len(cls)) % 2 else 4))
+    # subclass class: children whose class is a user subclass of a library block that has a symbol of its own, adding ports
+    shapes = [(1, 0), (0, 1), (2, 1)] + ([(2, 0), (1, 1), (0, 2), (2, 2), (3, 0)] if tier == 'thorough' else [])
+    for j, base in enumerate(sorted(c18net.SUBCLASS_BASES)):
+        for k, (xin, xout) in enumerate(shapes):
+            for w in ((1, 4, 8) if tier == 'thorough' else ((1, 4)[(j + k) % 2],)):
+                cases.append(dict(type='subclass', base=base, xin=xin, xout=xout, w=w))
     nets = []
     for i in range(N_NET[tier]):
         rnd = rng(seed, 'C18net', i)
@@ -238,6 +246,8 @@ def describe(case):
         return 'chain of %d %s created %s' % (case['n'], case['cls'], case['order'])
     if case['type'] == 'gate':
         return '%d-input %s (w=%d)' % (case['n'], case['cls'], case['w'])
+    if case['type'] == 'subclass':
+        return 'user subclass of %s with %d more inputs and %d more outputs (w=%d) next to a plain %s' % (case['base'], case['xin'], case['xout'], case['w'], case['base'])
     if case['type'] == 'multi':
         return 'drawings %s of the hierarchy of %s in one process' % (case['schedule'], describe(case['base']))
     return 'netlist(%d nodes)' % len(case['plan']['nodes'])
@@ -248,6 +258,7 @@ def judge(run, case, res):
     cls = case['block'] if case['type'] == 'block' else ('child:' + case['block'] if case['type'] == 'child' else
                                                          'chain' if case['type'] == 'chain' else
                                                          'wide:' + case['cls'] if case['type'] == 'gate' else
+                                                         'subclass:' + case['base'] if case['type'] == 'subclass' else
                                                          'multi:' + case['schedule'] if case['type'] == 'multi' else 'netlist')
     kase = dict((k, v) for k, v in case.items() if k != 'idx')
     if 'harness_error' in res:
@@ -302,6 +313,12 @@ def judge(run, case, res):
         run.count('wide_gates_drawn')
         fi = run.extra.setdefault('wide_gate_fanins_drawn', {})
         fi['%s:%d' % (case['cls'], case['n'])] = fi.get('%s:%d' % (case['cls'], case['n']), 0) + 1
+        run.nt(stable_hash(kase))
+    if case['type'] == 'subclass':
+        run.count('user_subclasses_of_library_symbols_drawn')
+        sb = run.extra.setdefault('user_subclass_extra_ports_drawn', {})
+        kk = '%s:+%din+%dout' % (case['base'], case['xin'], case['xout'])
+        sb[kk] = sb.get(kk, 0) + 1
         run.nt(stable_hash(kase))
     if case['type'] == 'multi':
         m = res.get('multi', {})
@@ -378,7 +395,7 @@ def run_check(run, tier, seed, shard):
 def floor(run, tier):
     c = run.counters
     for k, n in (('multi_later_drawings_sharing_a_wire', 50), ('multi_redraws_of_same_block', 10), ('wide_gates_drawn', len(WIDE_CLASSES) * (len(FANINS) - 2)),
-                 ('sch_net_endpoints_judged', 1000)):
+                 ('sch_net_endpoints_judged', 1000), ('user_subclasses_of_library_symbols_drawn', 3 * len(c18net.SUBCLASS_BASES))):
         if c.get(k, 0) < n:
             run.inconclusive.append('%s = %d (< %d): the class was not exercised' % (k, c.get(k, 0), n))
     for k, n in (('schematics_with_passthrough', 20), ('schematics_with_feedback', 20), ('netlists_with_edge_spanning_3_columns', 20), ('sch_wires_judged', 500)):
